@@ -359,28 +359,45 @@ def check_fill_md(dims: int, ex0: int, wx1: int, wx2: int, nx: int,
 
 
 def check_histogram_element(e0: int, w1: int, w2: int, ne: int, xs: List[int],
-                            with_ctx: bool) -> bool:
+                            with_ctx: bool, reset_at: int = -1) -> bool:
     """
     pre: w1 >= 1 and w2 >= 1
     pre: 2 <= ne <= 3
     pre: len(xs) <= B.FILLS
+    pre: -1 <= reset_at <= len(xs)
     post: _
     """
+    # the element may be reset and used again (FillRequest does that after
+    # every block): bins + n_out_of_range then count the fills since the reset
     edges = mk_edges(e0, w1, w2, 1, ne)
     with cut():
         el = Histogram(list(edges))
         ref = histogram(list(edges))
+        since = 0
+        last = None
         for i, x in enumerate(xs):
+            if i == reset_at:
+                el.reset()
+                ref = histogram(list(edges))
+                since = 0
+                last = None
             el.fill((x, {"i": i}) if with_ctx else x)
             ref.fill(x)
+            since += 1
+            last = i
+        if reset_at == len(xs):
+            el.reset()
+            ref = histogram(list(edges))
+            since = 0
+            last = None
         res = list(el.compute())
     if len(res) != 1:
         return h.ok(False)
     hist, ctx = res[0]
-    want_ctx = {"i": len(xs) - 1} if (with_ctx and xs) else {}
+    want_ctx = {"i": last} if (with_ctx and last is not None) else {}
     return h.ok(hist.bins == ref.bins and hist.n_out_of_range == ref.n_out_of_range
                 and hist.edges == edges and ctx == want_ctx
-                and sum(hist.bins) + hist.n_out_of_range == len(xs))
+                and sum(hist.bins) + hist.n_out_of_range == since)
 
 
 def check_edges_rejected(a: int, b: int, c: int, n: int, md: bool) -> bool:
